@@ -30,9 +30,9 @@ TEXT = {
     'C06': ("Lean theorems: one theorem per reception anomaly giving the documented error class and outcome, and recovery: a First Frame "
             "establishes a clean session from ANY state.", ""),
     'C07': ("Lean theorems: timer invariants (idle => timer stopped) over all operations, timeout error iff the deadline was missed at the "
-            "check point, one error per abandoned transfer.", "Deadlines are on the virtual clock."),
+            "check point, one error per abandoned transfer; frames that are read but ignored (wrong-size CF, stray Flow Control, foreign id, Single Frame without escape) leave the deadline where it was (C07ign).", "Deadlines are on the virtual clock."),
     'C08': ("Lean theorems: a Consecutive Frame is emitted only when the STmin timer (value of the last ContinueToSend / override) has expired "
-            "since the previous one; STmin byte decoding equals the code's on all 256 bytes (kernel-checked table).", "Virtual clock."),
+            "since the previous one; STmin byte decoding equals the code's on all 256 bytes (kernel-checked table); a transmitting process() pass never ends with Consecutive Frames held back under a zero separation time unless the rate limiter holds them (C08pass).", "Virtual clock."),
     'C09': ("Lean theorems: is_for_me of the model equals the documented reception condition for every address and frame; frames not for me "
             "change nothing; emitted id/prefix are the documented ones and are accepted by the mirrored address; Functional sends restricted to single frames.", ""),
     'C10': ('The network-level theorems of C01 hold with both directions active at once (they are stated for arbitrary schedules of both layers), plus the mailbox discipline: when every pass that reads also transmits (full and transmit-only passes, the schedule space of the property) a received Flow Control is consumed by the next transmit pass before any other frame is read (C10.fc_never_lost, mailbox_inv_reachable), frame conditions between the directions, no wedged state in full duplex; exhaustive-interleaving correspondence of the two-layer model against two real layers.',
@@ -46,7 +46,7 @@ TEXT = {
     'C14': ("Lean theorems on the lifecycle model: only documented exceptions for every operation sequence, stop() from any state is clean, restartable.",
             "Real-time bound of stop() is measured, not proved."),
     'C15': ("Lean theorems: limiter bookkeeping invariant, admission bound, sliding-window burst bound over abstract runs, progress once the window has "
-            "passed, disabled limiter never holds a frame, throttling never changes frames.", ""),
+            "passed, disabled limiter never holds a frame, throttling never changes frames; the abstract runs are compared step by step with a bare RateLimiter object (update / admitted hand-overs at arbitrary instants).", ""),
     'C16': ("Lean theorems: Address / Params validation of the model equals an independent predicate written from the documentation for every "
             "Python value combination; accepted configurations never raise in process() (invariant Safe).", "Float conversions handed over by Python."),
     'C17': ("Lean theorems: generator values are pulled in order, at most one frame ahead, never beyond the declared size; a short generator "
